@@ -70,6 +70,23 @@ def enumerate_histories(c):
     return files
 
 
+def flagged_class(cls, op):
+    """Class of a flagged-producer transition: the call with its arguments, the full kind of the database it acts on, and the
+    kinds of the other databases without the flags that only matter for calls on themselves (long-lived batch used, contents
+    at the last flush); a flush acts on every database, but the long-lived-batch flag plays no role in it."""
+    kinds = cls.rsplit("f", 1)[0].strip(".").split(".")
+    dbs = ["A", "B"]
+    out = []
+    for name, k in zip(dbs, kinds):
+        if op.get("db") == name:
+            out.append(k)
+        elif op["op"] == "flush":
+            out.append(k.replace("L", ""))
+        else:
+            out.append(k.replace("L", "").replace("l", ""))
+    return (tuple(out), op["op"], op.get("db"), op.get("v"), op.get("via"))
+
+
 def split_runs(path, chunk_lines):
     """Cut a trace file into pieces of about chunk_lines lines at run boundaries; returns [(first_line_no, [lines])]."""
     pieces = []
@@ -167,7 +184,7 @@ def run(c):
                 e = json.loads(l)
                 op = e["ops"][-1]
                 # flagged producer: every call is durable, so the class is (pre-state without the flush counter, call)
-                key = (e["cls"],) if comp == "pool" else (e["cls"].rsplit("f", 1)[0], op["op"], op.get("db"), op.get("v"), op.get("via"))
+                key = (e["cls"],) if comp == "pool" else flagged_class(e["cls"], op)
                 groups.setdefault(key, []).append(l)
         picked = []
         for key in sorted(groups, key=lambda k: tuple(str(x) for x in k)):
